@@ -21,7 +21,7 @@ import zlib
 from . import c14_exec as X
 from . import tlaval
 
-QKINDS = ("has", "get", "par", "depth", "anc", "mb", "rc", "ro", "miss", "cut", "miss_s", "fshallow", "depth_m", "refs", "ref", "all")
+QKINDS = ("has", "get", "par", "walk", "depth", "anc", "mb", "rc", "ro", "miss", "cut", "miss_s", "fshallow", "depth_m", "refs", "ref", "all")
 # steps that leave primary data (objects that stay reachable, ref values) untouched
 TRANSPARENT_ACTS = {"PackRefs", "PackLoose", "RepackD", "BuildCg", "BuildMidx", "BuildBmp", "Remove",
                     "CopyMidx", "CopyCg", "CopyBmp", "Reindex"}
@@ -32,6 +32,7 @@ SITE = {
     "get": "dulwich/object_store.py:DiskObjectStore.get_raw",
     "all": "dulwich/object_store.py:PackBasedObjectStore.__iter__",
     "par": "dulwich/repo.py:ParentsProvider.get_parents",
+    "walk": "dulwich/walk.py:Walker (Repo.get_walker)",
     "depth": "dulwich/object_store.py:get_depth",
     "anc": "dulwich/object_store.py:_collect_ancestors",
     "mb": "dulwich/graph.py:find_merge_base",
@@ -65,6 +66,9 @@ def norm_model(st):
     return {"n": m["n"], "par": [sorted(p) for p in par], "loose": sorted(m["loose"]),
             "packs": sorted([sorted(p[0]), p[1]] for p in m["packs"]),
             "tref": m["tref"], "lref": m["lref"], "pref": m["pref"],
+            "graft": [({"has": False, "p": []} if sorted(x) == [len(par) + 1] else {"has": True, "p": sorted(x)})
+                      for x in (m["graft"] if not isinstance(m["graft"], dict) else [m["graft"][str(i + 1)] for i in range(len(m["graft"]))])],
+            "shal": sorted(m["shal"]),
             "cg": {"on": m["cg"]["on"], "commits": sorted(m["cg"]["commits"]), "closed": m["cg"]["closed"]},
             "midx": {"on": m["midx"]["on"], "packs": sorted([sorted(p[0]), p[1]] for p in m["midx"]["packs"])},
             "bmp": sorted(({"at": [sorted(b["at"][0]), b["at"][1]], "for": [sorted(b["for"][0]), b["for"][1]],
@@ -75,7 +79,9 @@ def norm_model(st):
 
 def shape_diff(model, real):
     d = []
-    for k in ("n", "loose", "packs", "lref", "pref", "midx"):
+    if model["graft"][:model["n"]] != real["graft"]:
+        d.append(f"graft: model {model['graft']} real {real['graft']}")
+    for k in ("n", "loose", "packs", "lref", "pref", "midx", "shal"):
         if model[k] != real[k]:
             d.append(f"{k}: model {model[k]} real {real[k]}")
     if [p for p in model["par"][:model["n"]]] != [real["par"][i + 1] for i in range(real["n"])]:
@@ -145,7 +151,7 @@ def restrict(ans, keep_groups):
         return {int(x) for part in key.replace("|", ",").split(",") if part for x in [part.rstrip("ctb")]}
     out = {}
     for k, v in ans.items():
-        if isinstance(v, dict) and k in ("has", "get", "par", "depth", "anc", "mb", "rc", "ro", "miss", "cut", "miss_s", "depth_m"):
+        if isinstance(v, dict) and k in ("has", "get", "par", "walk", "depth", "anc", "mb", "rc", "ro", "miss", "cut", "miss_s", "depth_m"):
             out[k] = {q: r for q, r in v.items() if gk(q) <= keep}
         elif k == "fshallow" and isinstance(v, dict):
             out[k] = {q: r for q, r in v.items() if int(q.split("|")[0]) in keep}
@@ -255,7 +261,7 @@ def step(root, scratch, src_model, lab, dst_model, src_ans, seed=0, who=None, op
             real = None
             res["shape"].append(f"unprojectable: {type(e).__name__}: {e}")
         if real is not None:
-            res["real"] = {k: real[k] for k in ("n", "par", "loose", "packs", "lref", "pref", "cg", "midx", "bmp")}
+            res["real"] = {k: real[k] for k in ("n", "par", "loose", "packs", "lref", "pref", "graft", "shal", "cg", "midx", "bmp")}
             res["shape"] = shape_diff(dst_model, real)
         aw = X.battery(w, side, light=light)
     finally:
@@ -270,7 +276,7 @@ def step(root, scratch, src_model, lab, dst_model, src_ans, seed=0, who=None, op
     res["ans_w"] = aw
     # the variant without acceleration data
     an = None
-    nkey = json.dumps([dst_model[k] for k in ("n", "par", "loose", "packs", "tref")], sort_keys=True)
+    nkey = json.dumps([dst_model[k] for k in ("n", "par", "loose", "packs", "tref", "graft", "shal")], sort_keys=True)
     if pre is None and not want_n and n_cache is not None:
         an = n_cache.get(nkey)
     if an is None:
